@@ -24,6 +24,7 @@ from __future__ import annotations
 
 import itertools
 import logging
+import re
 from collections import deque
 from typing import TYPE_CHECKING, MutableSequence, Iterable, Any
 
@@ -203,7 +204,8 @@ def singleline_string_literal(string: str) -> str:
 
 def multiline_string_literal(string: str) -> str:
     string = str(string)[3:-3]
-    all_lines = string.splitlines()
+    # (not str.splitlines: it drops an empty last line and also splits at other characters than line breaks)
+    all_lines = re.split("\r\n|\r|\n", string)
     lines: list[str] = []
     last_line = ""
 
